@@ -32,39 +32,80 @@ set_option linter.unusedVariables false
 namespace GolibsVerif.C18
 open Fine
 
-/-! ## The fine model's step order against the regenerated skeletons
+/-! ## The fine model's step order against the regenerated event graphs
 
-`skel_refreshInALoop`, `skel_refresh`, `skel_workerShutdown` (`Theorems/C18.lean`) pin the
-SOURCE to the expected skeletons.  They do not say that the fine model walks through the
-statements in that order — that was by reading.  The three obligations below compute the
-order from the model's own step function (`ftrace` of canonical executions) and compare it
-with the skeletons regenerated from `/repo` on this run: re-ordering `New`/`Refresh`, moving
-the re-check, moving `close(done)` after the final refresh, or dropping a statement — in the
-source or in the model — breaks them. -/
+`skel_start`, `skel_workerShutdown` (`Theorems/C18.lean`) pin the SOURCE to the expected event
+graphs (`refreshInALoop` and `refresh` inlined).  They do not say that the fine model walks
+through the statements in that order — that was by reading.  The obligations below compute the
+order from the model's own step function (`ftrace` of canonical executions), translate every
+event into the labels it stands for (`evLbls`), and check that the graph regenerated from
+`/repo` on this run has a path from its entry with exactly these labels, in this order, and
+nothing in between except labels the model has no event for (`silentLbl`: `Now`, `go`, defer
+registrations, frame brackets, residual conditions, `return`): re-ordering `New`/`Refresh`,
+moving or dropping the re-check, merging the two selects, moving `close(done)` after the final
+refresh, dropping or adding a call — in the source or in the model — breaks them. -/
 
-/-- One full iteration: `UntilNext`, `After`, outer select, inner select (re-check), then
-inside `w.refresh` first `New`, then `Refresh`; `Handle`; `UntilNext` — the same calls and
-selects, in the same order, as `refreshInALoop` with `refresh` inlined. -/
+open GolibsVerif.Skel in
+/-- One full iteration: `UntilNext`, `After`, outer select (timer), inner select (re-check,
+`default`), then inside `w.refresh` first `New`, then `Refresh`; the error test; `Handle` iff the
+error is not nil; `UntilNext` again — a path of `Start`'s graph from its entry, for a failing
+and for a successful refresh. -/
 theorem fine_loop_order_matches_skeleton :
-    traceOrder (ftrace true finit loopIterationActs) =
-      skelOrder Gen.SyncSkel.service_RefreshWorker_refresh Gen.SyncSkel.service_RefreshWorker_refreshInALoop := by
+    accepts Gen.SyncSkel.service_RefreshWorker_Start silentLbl 64 0
+      ((ftrace true finit loopIterationActs).flatMap evLbls) = true ∧
+    accepts Gen.SyncSkel.service_RefreshWorker_Start silentLbl 64 0
+      ((ftrace true finit loopIterationOkActs).flatMap evLbls) = true := by
   decide
 
-/-- The two `return`s of the loop: the `done` case of the outer select comes directly after
-`After` is evaluated; the `done` case of the inner select comes directly after the timer case
-was taken. -/
+open GolibsVerif.Skel in
+/-- The two `return`s of the loop: the `done` case of the outer select, taken directly after
+`After` is evaluated, and the `done` case of the inner select, taken directly after the timer
+case — each followed by nothing but the end of the goroutine and of `Start`. -/
 theorem fine_exits_match_skeleton :
-    hasInfix ((((ftrace true finit loopExitOuterActs).filter isLoopEv).drop 2).flatMap evToks)
-      Gen.SyncSkel.service_RefreshWorker_refreshInALoop = true ∧
-    hasInfix (((((ftrace true finit loopExitRecheckActs).filter isLoopEv).drop 3).flatMap evToks).drop 1)
-      Gen.SyncSkel.service_RefreshWorker_refreshInALoop = true := by
+    acceptsEnd Gen.SyncSkel.service_RefreshWorker_Start silentLbl 64 0
+      (((ftrace true finit loopExitOuterActs).filter isLoopEv).flatMap evLbls) = true ∧
+    acceptsEnd Gen.SyncSkel.service_RefreshWorker_Start silentLbl 64 0
+      (((ftrace true finit loopExitRecheckActs).filter isLoopEv).flatMap evLbls) = true := by
   decide
 
-/-- `Shutdown`: `close(w.done)` first, then (inside `w.refresh`) `New`, then `Refresh`. -/
+open GolibsVerif.Skel in
+/-- `Shutdown`: `close(w.done)` first, then, iff `RefreshOnShutdown`, (inside `w.refresh`)
+`New`, then `Refresh`; then it returns. -/
 theorem fine_shutdown_order_matches_skeleton :
-    traceOrder (ftrace true finit shutdownActs) =
-      skelOrder Gen.SyncSkel.service_RefreshWorker_refresh Gen.SyncSkel.service_RefreshWorker_Shutdown := by
+    acceptsEnd Gen.SyncSkel.service_RefreshWorker_Shutdown silentLbl 64 0
+      ((ftrace true finit shutdownActs).flatMap evLbls) = true ∧
+    acceptsEnd Gen.SyncSkel.service_RefreshWorker_Shutdown silentLbl 64 0
+      ((ftrace false finit shutdownActs).flatMap evLbls) = true := by
   decide
+
+/-- The regenerated graphs of `Start` and `Shutdown` contain no event outside the fine
+model's alphabet: a call, channel operation or select case added to the source is not
+silently ignored by the walks above. -/
+theorem fine_alphabet_covers_skeleton :
+    alphabetCovers Gen.SyncSkel.service_RefreshWorker_Start = true ∧
+    alphabetCovers Gen.SyncSkel.service_RefreshWorker_Shutdown = true := by
+  decide
+
+/-! The walks are not vacuous: orders the source does not have are rejected. -/
+
+open GolibsVerif.Skel in
+/-- `Refresh` before `New` is not a path -/
+example : accepts Gen.SyncSkel.service_RefreshWorker_Start silentLbl 64 0
+    [.call "UntilNext", .call "After", .select, .caseRecv "After()", .select, .caseDefault,
+     .call "Refresh", .call "New"] = false := by decide
+
+open GolibsVerif.Skel in
+/-- a refresh without the re-check of `done` is not a path -/
+example : accepts Gen.SyncSkel.service_RefreshWorker_Start silentLbl 64 0
+    [.call "UntilNext", .call "After", .select, .caseRecv "After()", .call "New"] = false := by decide
+
+open GolibsVerif.Skel in
+/-- `close(done)` after the final refresh is not a path; nor is a `Shutdown` that returns
+between `New` and `Refresh` -/
+example : acceptsEnd Gen.SyncSkel.service_RefreshWorker_Shutdown silentLbl 64 0
+    [.call "New", .call "Refresh", .close "recv.<chan unit>"] = false ∧
+    acceptsEnd Gen.SyncSkel.service_RefreshWorker_Shutdown silentLbl 64 0
+    [.close "recv.<chan unit>", .call "New"] = false := by decide
 
 /-! ## What does NOT hold: the finding -/
 
